@@ -490,11 +490,34 @@ func (ip *Interp) run(fn *ssa.Function, args []any, depth int) (any, bool) {
 					delete(env, x)
 					continue
 				}
+				// memory handed to code that is not (fully) evaluated may be changed by it: forget its contents
+				forget := func() {
+					for _, a := range args {
+						switch av := a.(type) {
+						case iAddr:
+							for i := range av.arr.elems {
+								av.arr.elems[i] = nil
+							}
+						case iSlice:
+							if !isVariadicArgs(x, av) {
+								for i := range av.arr.elems {
+									av.arr.elems[i] = nil
+								}
+							}
+						case *iMap:
+							av.vals = nil
+						}
+					}
+				}
 				sc := x.Call.StaticCallee()
 				if sc != nil && sc.Blocks != nil && ip.m.InModule(sc) {
+					nLost := len(ip.lost)
 					res, ok := ip.run(sc, args, depth+1)
 					if ip.stopped {
 						return nil, false
+					}
+					if len(ip.lost) > nLost {
+						forget()
 					}
 					if ok {
 						env[x] = res
@@ -504,6 +527,7 @@ func (ip *Interp) run(fn *ssa.Function, args []any, depth int) (any, bool) {
 					continue
 				}
 				ip.dirty = true
+				forget()
 				delete(env, x)
 			case *ssa.If:
 				c, ok := get(x.Cond)
@@ -756,4 +780,14 @@ func (m *Model) globalStringIntMap(pkgShort, name string) (map[string]int64, boo
 		out[constant.StringVal(kc)] = i
 	}
 	return out, true
+}
+
+// isVariadicArgs: the slice is the freshly built argument array of this variadic call (the callee may read it, and a
+// library function like fmt.Sprintf does not keep or change it — and nothing else can see it afterwards anyway).
+func isVariadicArgs(c *ssa.Call, sl iSlice) bool {
+	if !c.Call.Signature().Variadic() || len(c.Call.Args) == 0 {
+		return false
+	}
+	_, ok := c.Call.Args[len(c.Call.Args)-1].(*ssa.Slice)
+	return ok
 }
